@@ -253,6 +253,13 @@ def _int_cast(ev, args, kwargs, fr):
         return T.raise_('TypeError')
     if base is None and T.type_of(x) == 'int':
         return x
+    if base == T.const(16):
+        # int(text, 16) of canonical hex text, with or without the 0x prefix int() accepts: the big-endian integer of the bytes
+        h = x
+        if T.is_op(x, 'CAT') and len(x) == 4 and x[2] in (T.const('0x'), T.const('0X')):
+            h = x[3]
+        if T.is_op(h, 'HEX') and len(h) == 3:
+            return T.int_(h[2], T.const('big'))
     if base is None and T.is_op(x, 'STR') and T.type_of(x[2]) == 'int':
         return x[2]            # int(str(n)) == n
     if base is None:
@@ -762,6 +769,9 @@ def fromhex(s):
             return T.raise_('ValueError')
     if T.is_op(s, 'HEX'):
         return s[2]
+    if T.is_op(s, 'CAT') and any(T.is_const(x) and isinstance(x[1], str) and set(x[1]) - set('0123456789abcdefABCDEF \t\n\r\x0b\x0c')
+                                 for x in s[2:]):
+        return T.raise_('ValueError')       # a constant piece of the text holds a character that is no hex digit ('0x...')
     return T.raw_op('FROMHEX', s)
 
 
